@@ -116,3 +116,28 @@ Qed.
 Theorem gate_before_domovoi loaded ps c m :
   call_gate false false true loaded (Some ps) c m = can_call ps c m.
 Proof. reflexivity. Qed.
+
+(* ---- overloads: the gate decides on the overload that is executed ---- *)
+Theorem gate_uses_executed_overload abi name n perms c f md :
+  find_method abi name n = Some md ->
+  overload_call abi name n perms c f =
+    Some (call_permitted (md_safe md) true perms c name, N.land 15 (if md_safe md then N.ldiff f 10 else f)) /\
+  (md_safe md = false -> (fst (call_permitted (md_safe md) true perms c name, 0) = true <-> may_call perms c name)) /\
+  (md_safe md = true -> N.land (N.land 15 (N.ldiff f 10)) 10 = 0).
+Proof.
+  intros H. unfold overload_call. rewrite H. split; [reflexivity|]. split.
+  - intros ->. simpl. apply can_call_iff.
+  - intros _. apply N.bits_inj. intros k. rewrite !N.land_spec, N.ldiff_spec, N.bits_0.
+    destruct (N.testbit 10 k); simpl; rewrite ?andb_false_r; reflexivity.
+Qed.
+
+Definition by_name_lookup_statement : Prop :=
+  forall abi name n perms c f md, find_method abi name n = Some md ->
+    overload_call_by_name abi name n perms c f = overload_call abi name n perms c f.
+
+Theorem by_name_lookup_refuted : ~ by_name_lookup_statement.
+Proof.
+  intros H.
+  specialize (H [mk_md "m" 1 true; mk_md "m" 2 false] "m"%string 2 [] (mk_callee 1 []) 15 (mk_md "m" 2 false) eq_refl).
+  vm_compute in H. discriminate.
+Qed.
